@@ -1,6 +1,7 @@
 package dtone
 
 import (
+	"errors"
 	"fmt"
 	"maps"
 	"net/http"
@@ -102,6 +103,9 @@ func (s *service) Transfer(sender urns.URN, recipient urns.URN, amounts map[stri
 	}
 	if err != nil {
 		return transfer, fmt.Errorf("transaction creation failed: %w", err)
+	}
+	if tx == nil {
+		return transfer, errors.New("transaction creation failed: empty response")
 	}
 
 	if tx.Status.Class.ID != StatusCIDConfirmed && tx.Status.Class.ID != StatusCIDSubmitted && tx.Status.Class.ID != StatusCIDCompleted {
